@@ -79,6 +79,12 @@ func (eng *engine) closeEventLoops() {
 	}
 }
 
+func closeListeners(lns map[int]*listener) {
+	for _, ln := range lns {
+		ln.close()
+	}
+}
+
 func (eng *engine) runEventLoops(ctx context.Context, numEventLoop int) error {
 	var el0 *eventloop
 	lns := eng.listeners
@@ -89,6 +95,7 @@ func (eng *engine) runEventLoops(ctx context.Context, numEventLoop int) error {
 			for _, l := range eng.listeners {
 				ln, err := initListener(l.network, l.address, eng.opts)
 				if err != nil {
+					closeListeners(lns)
 					return err
 				}
 				lns[ln.fd] = ln
@@ -96,6 +103,9 @@ func (eng *engine) runEventLoops(ctx context.Context, numEventLoop int) error {
 		}
 		p, err := netpoll.OpenPoller()
 		if err != nil {
+			if i > 0 {
+				closeListeners(lns)
+			}
 			return err
 		}
 		el := new(eventloop)
@@ -105,12 +115,14 @@ func (eng *engine) runEventLoops(ctx context.Context, numEventLoop int) error {
 		el.buffer = make([]byte, eng.opts.ReadBufferCap)
 		el.connections.init()
 		el.eventHandler = eng.eventHandler
+		// Register the event-loop before arming its listeners, so that
+		// closeEventLoops releases its poller and listeners if that fails.
+		eng.eventLoops.register(el)
 		for _, ln := range lns {
 			if err = el.poller.AddRead(ln.packPollAttachment(el.accept), false); err != nil {
 				return err
 			}
 		}
-		eng.eventLoops.register(el)
 
 		// Start the ticker.
 		if eng.opts.Ticker && el.idx == 0 {
@@ -166,12 +178,14 @@ func (eng *engine) activateReactors(ctx context.Context, numEventLoop int) error
 	el.engine = eng
 	el.poller = p
 	el.eventHandler = eng.eventHandler
+	// Set the main reactor before arming the listeners, so that
+	// closeEventLoops releases its poller if that fails.
+	eng.ingress = el
 	for _, ln := range eng.listeners {
 		if err = el.poller.AddRead(ln.packPollAttachment(el.accept0), true); err != nil {
 			return err
 		}
 	}
-	eng.ingress = el
 
 	// Start the main reactor in the background.
 	eng.concurrency.Go(el.rotate)
